@@ -33,7 +33,8 @@ class Prop(GraphProp):
                    "asynchronous interrupts between arbitrary bytecodes are outside the stated property",
                    "oracle: a fresh undisturbed computation of the same world in the same process"]
     fixed_description = ("single-fault enumeration: every callback invocation index of every operation of the fixed "
-                         "(world, schedule) family x 5 exception kinds")
+                         "(world, schedule) family x 5 exception kinds; thorough tier additionally all pairs of faults in "
+                         "different operations for four of the worlds")
 
     profile = {"p_illposed": 0.0, "max_ops": 30}
 
@@ -125,11 +126,24 @@ class Prop(GraphProp):
                 if clean["violation"]:
                     cases.append((f"fixed-{wi}-{si}-clean", {"world": w, "ops": ops, "faults": []}))
                     continue
-                for op, n in sorted((k, v) for k, v in clean["op_ticks"].items() if isinstance(k, int)):
+                ticks = sorted((k, v) for k, v in clean["op_ticks"].items() if isinstance(k, int))
+                for op, n in ticks:
                     for k in range(n):
                         for kind in KINDS:
                             cases.append((f"fixed-{wi}-{si}-{op}-{k}-{kind}",
                                           {"world": w, "ops": ops, "faults": [{"op": op, "k": k, "kind": kind, "persist": 1}]}))
+                if tier == "thorough" and wi < 4 and si == 0:
+                    # all pairs of single faults in different operations (second fault lands in the recovery path)
+                    sites = [(op, k) for op, n in ticks for k in range(n)]
+                    for a in range(len(sites)):
+                        for b in range(a + 1, len(sites)):
+                            if sites[a][0] == sites[b][0]:
+                                continue
+                            for kinds in (("SimFault", "KeyboardInterrupt"), ("RuntimeError", "SimFault")):
+                                cases.append((f"pair-{wi}-{si}-{sites[a]}-{sites[b]}-{kinds[0]}",
+                                              {"world": w, "ops": ops, "faults": [
+                                                  {"op": sites[a][0], "k": sites[a][1], "kind": kinds[0], "persist": 1},
+                                                  {"op": sites[b][0], "k": sites[b][1], "kind": kinds[1], "persist": 1}]}))
         return cases
 
 
